@@ -147,13 +147,14 @@ type v14Chunker struct {
 	Mode int
 	r    v14Rand
 	n    int
+	Cap  int // after this many chunks the rest goes in one piece (0: 2500)
 }
 
 var v14Boundaries = []int{1, 2, 100, 511, 512, 513, 4095, 4096, 4097, 8192, 16383, 16384, 16385, 32768, 65535, 65536, 65537}
 
 func (k *v14Chunker) next() int {
 	k.n++
-	if k.n > 2500 { // keep tiny-chunk plans bounded
+	if c := k.Cap; (c > 0 && k.n > c) || k.n > 2500 { // keep tiny-chunk plans bounded
 		return 1 << 22
 	}
 	m := k.Mode
@@ -377,7 +378,7 @@ type v14Wire struct {
 	streams         map[uint32]*v14WStream
 	viols           []*v14WViol
 	ev              map[string]int64
-	trace           []string
+	trace           []v14TraceEnt
 	goAway          [2]int
 	blocksBeforeAck int // client field blocks written before the client acknowledged the server's SETTINGS
 	goCode          [2]uint32
@@ -395,17 +396,23 @@ func v14NewWire() *v14Wire {
 	return w
 }
 
+type v14TraceEnt struct {
+	f string
+	a []any
+}
+
+// tr records a trace line; formatting is deferred (arguments must be values, not buffers).
 func (w *v14Wire) tr(format string, a ...any) {
 	if len(w.trace) >= 120 {
 		w.trace = append(w.trace[:0], w.trace[60:]...)
 	}
-	w.trace = append(w.trace, fmt.Sprintf(format, a...))
+	w.trace = append(w.trace, v14TraceEnt{format, a})
 }
 
 func (w *v14Wire) history() string {
 	s := ""
 	for _, l := range w.trace {
-		s += "\n  " + l
+		s += "\n  " + fmt.Sprintf(l.f, l.a...)
 	}
 	return s
 }
@@ -576,11 +583,11 @@ func (w *v14Wire) onFrame(d int, f h2ref.Frame) {
 		if w.goAway[d] == 1 || code != 0 {
 			w.goCode[d] = code
 		}
-		w.tr("%s GOAWAY last=%d code=%d debug=%q", v14DirName[d], last, code, dbg)
+		w.tr("%s GOAWAY last=%d code=%d debug=%q", v14DirName[d], last, code, string(dbg))
 	case h2ref.TypePing:
 		w.tr("%s PING flags=0x%x", v14DirName[d], f.Flags)
 	default:
-		w.tr("%s %v", v14DirName[d], f)
+		w.tr("%s %s", v14DirName[d], f.String())
 	}
 }
 
